@@ -330,11 +330,13 @@ def check_no_swallow(model: Model, col, rule: str):
         raise AnalysisError("infra: the swallowing-handler detector does not fire on its positive example")
     n = 0
     for rel in INFRA_FILES:
-        fi = model.files.get(rel)
-        if fi is None:
+        if rel not in model.files:
             raise AnchorMissing(rel)
+    # the shared files and every pass: handlers inside functions (a module-level import fallback is not a compilation step)
+    for rel in sorted(r for r in model.files if r in INFRA_FILES or r.startswith("nsl/passes/") or r in ("nsl/LinearIR.py", "nsl/types.py")):
+        fi = model.files[rel]
         n += 1
-        hs = swallowing_handlers(fi.tree)
+        hs = [h for f_ in ast.walk(fi.tree) if isinstance(f_, ast.FunctionDef) for h in swallowing_handlers(f_)]
         col.check(not hs, rule, f"{rel}:: no except-clause completes without raising", "no swallowing handler",
                   f"`except {unparse(hs[0].type) if hs and hs[0].type is not None else ''}` at line {hs[0].lineno if hs else 0} can complete without raising: a failure inside a handler, traversal or pass "
                   "(an unsupported construct, an internal error) is dropped and the partial result is handed on as if it were complete", rel, hs[0] if hs else fi.tree)
